@@ -39,7 +39,7 @@ CLAIMED = {
         "as its own obligation) for every listed (resolution, concrete voltage range): bounds, low/full-scale saturation, "
         "no-wrap for 10 (quick) / 61 (thorough) resolutions, monotonicity for <= 8 / 10 bits; decided by cvc5 (z3 fall-back). "
         "Symbolic voltage range: bug-hunting under a time cap. Real-arithmetic layer: all clauses for every range, every listed "
-        "resolution; SAR bounds/full-scale up to 24 (64) bits, SAR monotone <= 8 (12) bits, zero-noise equivalence (reals, and exact Float64 for concrete range maxima 3.3 / 0.7 V quick, plus 1.8 / 0.2048 / 5.0 V thorough, 4..12 bits); float32 / float16 signal frames: every number parked in a narrow float array is recorded and integers among them must fit the mantissa (side condition that makes the real-arithmetic verdicts valid for those frames); simple_adc / sar_adc on a detector still holding the image of a lower-resolution conversion (all pairs of storage classes); the data_type option of simple_adc for every (storage class, requested type) pair with fixed-width wrap modelled: refused with nothing stored, or stored wide enough, full scale and ordered; the two SAR models (sar_adc, sar_adc_with_noise with zero strengths and noises) on detectors with a symbolic voltage range store the same image.",
+        "resolution; SAR bounds/full-scale up to 24 (64) bits, SAR monotone <= 8 (12) bits, zero-noise equivalence (reals, and exact Float64 for concrete range maxima 3.3 / 0.7 V quick, plus 1.8 / 0.2048 / 5.0 V thorough, 4..12 bits); float32 / float16 signal frames: every number parked in a narrow float array is recorded and integers among them must fit the mantissa (side condition that makes the real-arithmetic verdicts valid for those frames); simple_adc / sar_adc on a detector still holding the image of a lower-resolution conversion (all pairs of storage classes); the data_type option of simple_adc for every (storage class, requested type) pair with fixed-width wrap modelled: refused with nothing stored, or stored wide enough, full scale and ordered; the two SAR models (sar_adc, sar_adc_with_noise with zero strengths and noises) on detectors with a symbolic voltage range store the same image (reals), and exactly in IEEE-754 on (0, 3.3 V) / (0, 0.7 V).",
         "NaN inputs excluded; exact-FP verdicts hold for the listed concrete ranges; FP monotonicity beyond 8/10 bits is out of "
         "solver reach (stated), covered only by the real-arithmetic layer; cvc5/z3 trusted.",
         "symbolic execution of the real Python code (vx) to QF_FP / LRA terms, decided by cvc5 and z3",
@@ -62,7 +62,7 @@ CLAIMED = {
         "ParameterValues boundaries, ModelFittingDataTree._set_bound/get_bounds/convert_to_parameters/update_processor and "
         "Processor.set/get executed with symbolic boundary pairs and symbolic decision vectors (1-D and 2-D) for every layout of "
         "1..3 variables (scalar / vector of 1..2 (3) placeholders, shared or per-component boundaries, linear or logarithmic): "
-        "bound vectors, value = dv or 10**dv by owner, inside [lo,hi], slices applied to the right keys, reported == applied. Best-individual reporting: the real get_best_individuals on a stub archipelago for all 6 fitness rankings x 1..3 requested individuals (reported parameters are the conversion of the reported decision vectors). Evaluated candidates: concrete witness layer - real pygmo runs (sade, nlopt neldermead / slsqp / lbfgs quick; + sga, bobyqa, mma thorough) on a two-parameter problem with the optimum on the box faces plus every evaluation entry point the pygmo problem exposes (fitness, gradient, hessians, batch_fitness) at a solver-chosen corner: every value the pipeline is run with lies in the box. Vector variables declared as a list or as a tuple of placeholders (symbolic choice).",
+        "bound vectors, value = dv or 10**dv by owner, inside [lo,hi], slices applied to the right keys, reported == applied. Best-individual reporting: the real get_best_individuals on a stub archipelago for all 6 fitness rankings x 1..3 requested individuals (reported parameters are the conversion of the reported decision vectors). Evaluated candidates: concrete witness layer - real pygmo runs (sade, nlopt neldermead / slsqp / lbfgs quick; + sga, bobyqa, mma thorough) on a two-parameter problem with the optimum on the box faces plus every evaluation entry point the pygmo problem exposes (fitness, gradient, hessians, batch_fitness) at a solver-chosen corner: every value the pipeline is run with lies in the box. Vector variables declared as a list or as a tuple of placeholders (symbolic choice); the problem object is built through its real constructor; two scalar parameters sharing their argument name.",
         "10**x/log10 are uninterpreted functions constrained to be mutually inverse and monotone (real arithmetic); pygmo keeping "
         "candidates inside the box is covered by the witness runs only (C++).",
         "dynamic symbolic execution of the real Python code (vx) + z3 LRA+UF",
@@ -77,7 +77,7 @@ CLAIMED = {
         "target[target range], weights), each pair with its own processor, parameter applied.",
         "run_pipeline and xarray.DataArray are recording stand-ins in the accumulation harness (the stand-in frame depends on the seed the run is "
         "given, an unseeded run on a fresh unknown); champion re-simulation is decided at the level of _apply_parameters (same processor, parameter, "
-        "readout and seed-dependent frame as fitness()); settings re-declared through attributes after construction (fit ranges, weights, seed; symbolic) are what run_calibration hands to the fitting problem; champion reporting (_get_champions) is executed against an archipelago stub under pygmo's contract (an island's champion is its best-ever individual and never gets worse): reported == best-ever, hence never worse than before; pygmo honouring that contract is assumed; integer-typed target files with real weights; every target paired with a model argument and a detector setting of its own; NaN handling outside (real arithmetic).",
+        "readout and seed-dependent frame as fitness()); settings re-declared through attributes after construction (fit ranges, weights, seed; symbolic) are what run_calibration hands to the fitting problem; champion reporting (_get_champions) is executed against an archipelago stub under pygmo's contract (an island's champion is its best-ever individual and never gets worse): reported == best-ever, hence never worse than before; pygmo honouring that contract is assumed; integer-typed target files with real weights; every target paired with a model argument and a detector setting of its own; a result range left open against an explicit target range (the detector's size unknown to the checker); NaN handling outside (real arithmetic).",
         "dynamic symbolic execution of the real Python code (vx) + z3 LIA/NRA, path-witness replay",
         "DESIGN.md section 4 C11",
     ),
@@ -181,7 +181,7 @@ CLAIMED = {
         "state term == initial term, seeded draws do not depend on the prior state (substitution of a fresh initial state). 15 stochastic model "
         "functions on real detectors: restored when seeded (also when the model fails late), draws independent of the prior state, no re-seeding "
         "without a seed; called twice on identical detectors from the same generator state every model consumes the same draws and leaves the same buckets (no process-level memo). Seed plumbing with a symbolic pipeline seed through real run_mode (exposure, sequential observation), the deprecated exposure entry point, the dask worker "
-        "function, fitness(), _apply_parameters and Calibration.run_calibration (archipelago stubbed); the optimiser seed is solver-chosen among 0, 1, 7, 100000 and must reach the archipelago, pygmo's global seed and the attribute unchanged. Nested seeding contexts (a model seed inside a pipeline seed, symbolic seeds, 0..3 draws each); generators created from operating-system entropy are recorded and must not occur under a seed; charge_deposition runs with the shipped stopping-power table; every stochastic model also on a detector at a later readout step; option combinations that leave one of a model's noise sources on. Two seeded contexts overlapping in time (the threaded parallel mode): the order of their enter / draw / exit steps is a vector of symbolic booleans over the real context manager, counterexamples replayed with two real threads stepped by events - open known finding (18 non-serial orders).",
+        "function, fitness(), _apply_parameters and Calibration.run_calibration (archipelago stubbed); the optimiser seed is solver-chosen among 0, 1, 7, 100000 and must reach the archipelago, pygmo's global seed and the attribute unchanged. Nested seeding contexts (a model seed inside a pipeline seed, symbolic seeds, 0..3 draws each); generators created from operating-system entropy are recorded and must not occur under a seed; charge_deposition runs with the shipped stopping-power table; every stochastic model also on a detector at a later readout step; option combinations that leave one of a model's noise sources on. Two seeded contexts overlapping in time (the threaded parallel mode): the order of their enter / draw / exit steps is a vector of symbolic booleans over the real context manager, counterexamples replayed with two real threads stepped by events - open known finding (18 non-serial orders). The whole parallel path (graph of run_pipelines_with_dask under dask's synchronous scheduler) with a symbolic pipeline seed.",
         "Bit-identity of results additionally assumes numpy's generator and pygmo are deterministic functions of their seeds; local generators "
         "are not modelled; models needing external files (cosmix, charge_deposition, nghxrg, qe maps) are not exercised; pulse_processing's "
         "deterministic physics is stubbed (170 s per pixel).",
@@ -225,7 +225,7 @@ CLAIMED = {
         "injective and complete over all save lists of 3 buckets x 3 formats, per-run suffixes disjoint, "
         "save_to_files reports every request once and never overwrites. Contents: Outputs.save_to_file with recording writers and a symbolic image / "
         "pixel bucket over ordered format lists (all ordered pairs of fits/npy/jpg/png/txt plus longer lists): every lossless writer receives exactly "
-        "the bucket (values, dtype), picture writers its 8-bit preview, the bucket is untouched. save_to_files under rotations of three save lists (same bucket in non-adjacent entries). Existence of a foreign path is re-sampled at every "
+        "the bucket (values, dtype), picture writers its 8-bit preview, the bucket is untouched. save_to_files under rotations of four save lists (same bucket in non-adjacent entries; picture formats with the jpeg alias). Existence of a foreign path is re-sampled at every "
         "observation (monotone), so a directory appearing between a test and the creation is covered; a non-terminating candidate loop is an obligation. End-to-end witness exposures (clusters / arrays / both, 1-2 (4) steps, with and without a FITS header of a raw uint16 frame on the detector): every reported npy / FITS file equals the result bucket. Witness observations with outputs (product grids 3x2, 2x2, 2x3, sequential lists; dask and sequential engine): every reported file exists, is reported for one run only and holds that run's bucket.",
         "Write primitives are recorders honouring their documented overwrite contract; the encoders themselves (astropy, numpy, PIL: bytes on disk) "
         "and the HDF5 writer are outside the symbolic claim (concrete replays write and read back real files); OS-level atomicity of mkdir assumed.",
